@@ -9,16 +9,15 @@ from .common import Check, fmt_ints, fmt_matrix, kv
 
 NAMES = ["binCount", "lastEmpty", "empty", "lastSmall", "small", "lastSkyline", "lowestSkyline"]
 
-THEOREMS = [
-    "BinObj.binCount_eq_spec", "BinObj.lastEmpty_eq_spec", "BinObj.empty_eq_spec", "BinObj.lastSmall_eq_spec",
-    "BinObj.small_eq_spec", "BinObj.lastSkyline_eq_spec", "BinObj.lowestSkyline_eq_spec", "BinObj.obj_eq_spec",
-    "BinObj.sweep_eq_skyArea", "BinObj.sweep_steps_bounded", "BinObj.sky_spec", "BinObj.minOver_spec",
-    "BinObj.scratch_irrelevant",
-    "BinObj.noOOB", "BinObj.noOOB_inSpace", "BinObj.oob_iff",
-    "BinObj.bins_le_nItems", "BinObj.tie_in_range", "BinObj.to_bin_count_obj", "BinObj.lbGeo_le_bins",
-    "BinObj.obj_within_bounds", "BinObj.obj_within_bounds_geo", "BinObj.fewer_bins_strictly_better",
-    "BinObj.areaIn_le_skyArea", "BinObj.spec_range", "BinObj.int64_wrap_witness",
-]
+THEOREMS = ["BinObj." + t for t in (
+    "sky_spec", "minOver_spec",
+    "binCount_eq_spec", "lastEmpty_eq_spec", "empty_eq_spec", "lastSmall_eq_spec", "small_eq_spec",
+    "sweep_eq_skyArea", "lastSkyline_eq_spec", "lowestSkyline_eq_spec", "obj_eq_spec",
+    "scratch_irrelevant", "noOOB", "noOOB_inSpace", "oob_iff",
+    "bins_le_nItems", "tie_in_range", "to_bin_count_obj", "lbGeo_spec", "lbGeo_le_bins",
+    "tie_one_bin", "tie_ge_smallest", "obj_within_bounds", "obj_within_bounds_geo",
+    "fewer_bins_strictly_better", "areaIn_le_skyArea", "spec_range", "int64_wrap_witness",
+)]
 
 SKY_SPEC_MAX_W = 4000   # the Lean spec sums the skyline column by column
 
